@@ -11,5 +11,6 @@ def run(ctx, prog):
     J.r_optgate(ctx, prog)
     J.r_numall(ctx, prog)
     J.r_numbuf(ctx, prog)
+    J.r_validafter(ctx, prog)
     from rules import scan
     scan.run(ctx, prog)
